@@ -145,7 +145,7 @@ B("C06", IG, "    externals = module.externals.copy()\n    external_inds = modul
 B("C06", IG, "    rec_inds = module.recordings.rec_index.to_numpy()", "    module.recordings = module.recordings.reset_index(drop=True)\n    rec_inds = module.recordings.rec_index.to_numpy()", "R-C06-pure")
 B("C06", JU, "    carry, out = scan_fn(sub_scans, init, xs, lengths[0])\n    stacked_out = jax.tree_util.tree_map(jnp.concatenate, out)\n    return carry, stacked_out", "    carry, out = scan_fn(sub_scans, init, xs, lengths[0])\n    stacked_out = jax.tree_util.tree_map(jnp.concatenate, out)\n    return init, stacked_out", "R-C06-scan")
 B("C06", JU, "        return _inner_nested_scan(f, carry, xs, lengths[1:], scan_fn, checkpoint_fn)", "        return _inner_nested_scan(f, carry, xs, lengths, scan_fn, checkpoint_fn)", "R-C06-scan")
-B("C06", IG, "                externals[key] = jnp.concatenate([externals[key], dummy_external])", "                externals[key] = jnp.concatenate([dummy_external, externals[key]])", "R-C06-scan")
+B("C06", IG, "            externals[key] = jnp.concatenate([externals[key], dummy_external])", "            externals[key] = jnp.concatenate([dummy_external, externals[key]])", "R-C06-scan")
 B("C06", BASE, '        voltages = u["v"]\n\n        # Extract the external inputs', '        voltages = u["v"]\n        if float(voltages[0]) > 100.0:\n            raise ValueError\n        # Extract the external inputs', "R-C06-taint")
 B("C06", SV, "    new_voltates = voltages + delta_t * update", "    new_voltates = voltages + delta_t * update * np.random.uniform()", "R-C06-rng")
 P("C06", IG, "    externals = module.externals.copy()", "    externals = dict(module.externals)")
@@ -156,13 +156,13 @@ B("C07", IG, "        all_states = (\n            module.get_all_states(pstate, 
 B("C07", IG, "            solver=solver,\n            voltage_solver=voltage_solver,\n        )\n        return state", "            solver=\"bwd_euler\",\n            voltage_solver=voltage_solver,\n        )\n        return state", "R-C07-single-step")
 B("C07", IG, "    all_states, all_params = init_fn(params, all_states, param_state, delta_t)", "    all_states, all_params = init_fn(params, None, param_state, delta_t)", "R-C07-single-step")
 B("C07", IG, "    recs = jnp.concatenate([init_recording, recordings[:nsteps_to_return]], axis=0).T", "    recs = jnp.concatenate([recordings[:nsteps_to_return], init_recording], axis=0).T", "R-C08-recs")
-B("C07", IG, "                externals[key] = jnp.concatenate([externals[key], dummy_external])", "                externals[key] = jnp.concatenate([dummy_external, externals[key]])", "R-C07-padding")
+B("C07", IG, "            externals[key] = jnp.concatenate([externals[key], dummy_external])", "            externals[key] = jnp.concatenate([dummy_external, externals[key]])", "R-C07-padding")
 P("C07", IG, "        state = all_states\n        state = module.step(\n            state,", "        state = module.step(\n            all_states,")
 
 # ---------------------------------------------------------------------------------------- C08
 B("C08", BASE, "            inds = self._nodes_in_view if key in comp_states else self._edges_in_view\n            self.base.external_inds[key] = jnp.concatenate(\n                [self.base.external_inds[key], inds]", "            self.base.external_inds[key] = jnp.concatenate(\n                [self.base.external_inds[key], self._nodes_in_view]", "R-C08-space")
 B("C08", BASE, "        in_view = self._nodes_in_view if state in comp_states else self._edges_in_view\n\n        new_recs", "        in_view = self._nodes_in_view\n\n        new_recs", "R-C08-space")
-B("C08", BASE, '        # Clamp for channels and synapses.\n        for key in externals.keys():\n            if key not in ["i", "v"]:\n                u[key] = u[key].at[external_inds[key]].set(externals[key])\n', "", "R-C08-order")
+B("C08", BASE, '        # Clamp for channels and synapses.\n        for key in externals.keys():\n            if key not in ["i", "v"]:\n                inds = external_inds[key]\n                if key in self._edge_state_names():\n                    # Clamps of synaptic states are indexed by the global edge index.\n                    inds = jnp.asarray(self._edge_inds_within_type())[inds]\n                u[key] = u[key].at[inds].set(externals[key])\n', "", "R-C08-order")
 B("C08", IG, "                    pad = jnp.zeros(", "                    pad = jnp.ones(", "R-C08-time")
 B("C08", IG, "                externals[key] = externals[key][:t_max_steps, :]", "                externals[key] = externals[key][: t_max_steps - 1, :]", "R-C08-time")
 B("C08", IG, "        externals[key] = externals[key].T  # Shape `(time, num_stimuli)`.", "        externals[key] = externals[key]  # Shape `(time, num_stimuli)`.", "R-C08-time")
@@ -360,8 +360,8 @@ B("C12", NW, "            offset_within_cell = cell.cumsum_ncomp[-1]\n          
 P("C17", TF, "        return jax.tree_util.tree_map(lambda x, tf: tf.forward(x), params, self.tf_dict)", "        def leaf(x, tf, inverse=False):\n            if inverse:\n                return tf.inverse(x)\n            return tf.forward(x)\n\n        return jax.tree_util.tree_map(leaf, params, self.tf_dict)")
 B("C17", TF, "        return jax.tree_util.tree_map(lambda x, tf: tf.forward(x), params, self.tf_dict)", "        def leaf(x, tf, inverse=True):\n            if inverse:\n                return tf.inverse(x)\n            return tf.forward(x)\n\n        return jax.tree_util.tree_map(leaf, params, self.tf_dict)", "R-C17-struct")
 # C10: to_jax coverage on terms, alias of a chained assignment, accumulate onto the base registry
-P("C10", BASE, "        self.base.jaxedges = {}\n        edges = self.base.edges.to_dict(orient=\"list\")", "        jaxedges = self.base.jaxedges = {}\n        edges = self.base.edges.to_dict(orient=\"list\")")
-B("C10", BASE, "            for key in synapse.synapse_states:\n                self.base.jaxedges[key] = jnp.asarray(np.asarray(edges[key])[condition])", "            for key in list(synapse.synapse_states)[:0]:\n                self.base.jaxedges[key] = jnp.asarray(np.asarray(edges[key])[condition])", "R-C10-tojax")
+P("C10", BASE, "            self.base.jaxedges = {}\n            edges = self.base.edges.to_dict(orient=\"list\")", "            jaxedges = self.base.jaxedges = {}\n            edges = self.base.edges.to_dict(orient=\"list\")")
+B("C10", BASE, "                for key in synapse.synapse_states:\n                    self.base.jaxedges[key] = jnp.asarray(", "                for key in list(synapse.synapse_states)[:0]:\n                    self.base.jaxedges[key] = jnp.asarray(", "R-C10-tojax")
 for _p, _r in (("C10", "R-C10-groups"), ("C11", "R-C11-basestate")):
     B(_p, BASE, "                np.concatenate([self.base.groups[group_name], self._nodes_in_view])", "                np.concatenate([self.groups[group_name], self._nodes_in_view])", _r)
 B("C10", BASE, "        self.base.to_jax()\n        pstate = params_to_pstate(trainable_params, self.base.indices_set_by_trainables)\n        all_params = self.base.get_all_parameters(pstate, voltage_solver=\"jaxley.stone\")",
